@@ -104,6 +104,36 @@ CLAIMS = {
         "Trusted: regexp submatch indexing (documented); go/ssa.",
         "DESIGN.md 5 (C02)",
     ),
+    "C06": (
+        "path-sensitive stage automaton over all CFG paths of QuickMatch, guard extraction, matcher identity for Allow, chain-choice table of the dispatcher",
+        "Decides for all route tables, option combinations and requests: the fallback stages run in the fixed order S1..S4, each only "
+        "after all earlier ones failed and only under its option flag / HEAD test, a success returns that stage's values at once; the "
+        "matcher always receives the normalised path (of the request or of InterceptAll); the Allow set is computed with the dispatch "
+        "matcher over all other methods and recorded iff matched; the dispatcher maps the three outcomes to the three chains; default "
+        "handlers answer 404 / sorted Allow with 200 for OPTIONS else 405. It does not decide which routes match (C01).",
+        "Trusted: option flags fixed after registration; go/ssa.",
+        "DESIGN.md 5 (C06)",
+    ),
+    "C07": (
+        "store/lookup key agreement by canonical form, value-pair provenance, whole-struct copy coverage, index/list pairing, nil-guard dominance",
+        "Decides for all histories the structural preconditions of cache transparency: entries are stored and looked up under method + "
+        "whole normalised path, the stored pair is the pair the miss path returned, the cached copy differs from the matched route only "
+        "in regex/matches/params, the cache never shadows the static tier and is filled only after a dynamic match, the cache's index "
+        "and list agree on keys, and the cache pointer is nil-tested before every use. It does not decide response equality of twin "
+        "routers step by step (history-valued).",
+        "Trusted: handlers treat Params as read-only (premise of the property); container/list; go/ssa.",
+        "DESIGN.md 5 (C07)",
+    ),
+    "C14": (
+        "index/list pairing rules, orientation consistency, capacity-guard path rule, key agreement, lock-set analysis",
+        "Decides the structural invariants of the two-structure LRU for all operation sequences: index and list change together, one "
+        "orientation (front = most recent, back = victim) is used by insert / re-store / hit / evict, only Set inserts and every "
+        "insertion reaches the Len() > size guard which removes exactly one LRU element, the router stores under the lookup key and "
+        "consults the cache before dynamic matching, recency mutations hold the exclusive lock. It does not decide LRU conformance of "
+        "concrete histories.",
+        "Trusted: container/list semantics; go/ssa.",
+        "DESIGN.md 5 (C14)",
+    ),
 }
 
 NOT_APPLICABLE = {}
